@@ -81,10 +81,10 @@ func runC18(e *Env) {
 			if fire != nil {
 				_, ok = core.GuardedBy(fire, func(cond ssa.Value) core.CondMatch {
 					c, is := core.CondCall(cond, "time.Time.After")
-					if !is || core.Unwrap(core.Arg(c, 0)) != ssa.Value(f.Params[1]) {
+					if !is || core.Resolve(core.Arg(c, 0)) != ssa.Value(f.Params[1]) {
 						return core.CondMatch{}
 					}
-					add, isAdd := core.Arg(c, 1).(*ssa.Call)
+					add, isAdd := core.Resolve(core.Arg(c, 1)).(*ssa.Call)
 					if !isAdd || core.CalleeName(add) != "time.Time.Add" || !isFieldLoadNamed(core.Arg(add, 1), "duration") {
 						return core.CondMatch{}
 					}
@@ -250,9 +250,10 @@ func c18KeepAlive(e *Env) {
 			for _, c := range core.CallsNamed(cb, "net/monitor/inactivity.KeepAlive.resetFails") {
 				_, g := core.GuardedBy(c.(ssa.Instruction), func(cond ssa.Value) core.CondMatch {
 					cmp, is := core.AsCmp(cond)
-					if !is || cmp.Op != token.EQL {
+					if !is || (cmp.Op != token.EQL && cmp.Op != token.NEQ) {
 						return core.CondMatch{}
 					}
+					eqBranch := cmp.Op == token.EQL
 					isLoad := func(v ssa.Value) bool {
 						lc, ok := v.(*ssa.Call)
 						if !ok || !strings.HasSuffix(core.CalleeName(lc), ".Load") {
@@ -262,7 +263,7 @@ func c18KeepAlive(e *Env) {
 						return ok && fl == "pongToken"
 					}
 					if (isLoad(cmp.X) && core.Resolve(cmp.Y) == ssa.Value(gen)) || (isLoad(cmp.Y) && core.Resolve(cmp.X) == ssa.Value(gen)) {
-						return core.CondMatch{Match: true, Branch: true}
+						return core.CondMatch{Match: true, Branch: eqBranch}
 					}
 					return core.CondMatch{}
 				})
